@@ -227,8 +227,9 @@ def idempotent_appliers(ctx, p):
         b = F.body(fn)
         if not b:
             continue
-        seeds = [b.term(s)['d'][0] for s in b.call_sites('std::slice::from_raw_parts_mut', 'core::slice::from_raw_parts_mut')]
-        ALLOWED = ['re:IndexMut.*::index_mut$', "log::LogReader::<'a>::read", 'std::ops::Try::branch', 're:Result.*::map_err$', 'std::ops::FromResidual::from_residual',
+        # (a view is a mutable slice over the chunk, or - since F77, for the index - an atomic cell over one entry that is only stored to)
+        seeds = [b.term(s)['d'][0] for s in b.call_sites('std::slice::from_raw_parts_mut', 'core::slice::from_raw_parts_mut', 're:Atomic.*::from_ptr$')]
+        ALLOWED = ['re:Atomic.*::store$', 're:IndexMut.*::index_mut$', "log::LogReader::<'a>::read", 'std::ops::Try::branch', 're:Result.*::map_err$', 'std::ops::FromResidual::from_residual',
                    're:^core::fmt', 're:^std::fmt', 're:^log::']
         def misuse(body, seeds_, depth=2):
             out = []
